@@ -207,15 +207,23 @@ func (b *tinyKernels) Run() {
 			qs[gi] = b.d.CreateCommandQueue(b.ctx)
 			qcos[gi] = newCOs()
 		}
+		// rounds as in kmeans: every queue gets a copy and a kernel, then all
+		// queues are drained; the queues advance in lock step, so the driver has
+		// to choose between them again and again
 		for r := 0; r < b.Concurrent; r++ {
 			for gi := range b.gpus {
 				x = x*1664525 + 1013904223
+				src := make([]uint32, b.Elems) // owned by the command from now on
+				for i := range src {
+					src[i] = x + uint32(i)*uint32(gi+3)
+				}
+				b.d.EnqueueMemCopyH2D(qs[gi], bufs[gi], src)
 				args := kern.ElemArgs{Buf: bufs[gi], C: (x >> 8) | 1}
 				b.d.EnqueueLaunchKernel(qs[gi], qcos[gi][(x>>4)%3], [3]uint32{uint32(b.Elems), 1, 1}, [3]uint16{64, 1, 1}, &args)
 			}
-		}
-		for _, q := range qs {
-			b.d.DrainCommandQueue(q)
+			for _, q := range qs {
+				b.d.DrainCommandQueue(q)
+			}
 		}
 		for gi := range b.gpus {
 			b.d.MemCopyD2H(b.ctx, host, bufs[gi])
